@@ -449,6 +449,10 @@ def search(ctx):
 
 
 def replay(ctx, obj):
+    if "case" not in obj:
+        print("# nothing to re-execute: this file records an undischarged obligation / correspondence "
+              "(no failing input was found)")
+        return True
     case = obj["case"]
     obs, net, tree, sf = observe(case)
     return oracle(case, obs, net, tree) is None
